@@ -188,4 +188,30 @@ SPECS = {
             'tampering edits the transaction object the way an in-process attacker or a buggy caller would; raw-byte flips are covered by the parse round trip of tampered copies',
         ],
     },
+    'C15': {
+        'property': 'C15',
+        'level': 'exploration',
+        'arms': [{
+            'name': 'bip38',
+            'module': 'scenarios.c15_bip38',
+            'fault_kinds': ['entropy_fail', 'msg_corrupt'],
+            'tiers': {
+                'quick': {'runs': 220, 'budget_s': 100, 'run_timeout_s': 120, 'shrink_budget_s': 60, 'params': {}},
+                'thorough': {'runs': 4000, 'budget_s': 900, 'run_timeout_s': 240, 'shrink_budget_s': 200, 'params': {}},
+            },
+        }],
+        'rule': ('one run = one process-lifetime history of 4-9 BIP38 operations (intermediate passphrase with / without lot+sequence '
+                 'and explicit salt, new EC-multiplied encrypted key with / without explicit seed, encrypt a fresh Key/HDKey, decrypt '
+                 'with the right / a wrong / a differently composed passphrase, decrypt a string with one changed character, other '
+                 'entropy users in between, entropy source failing, parent and forked child both generating) over a simulated entropy '
+                 'source that never repeats and counts the bytes drawn inside each call. Non-trivial: >= 4 operations, >= 2 successful '
+                 'library calls; distinct = distinct event-log digests.'),
+        'state_measure': 'n/a (digests only)',
+        'components': {'real': ['bitcoinlib.keys (bip38_*, Key, HDKey)', 'bitcoinlib.mnemonic', 'scrypt / pycryptodome AES'],
+                       'stub': ['entropy source (os.urandom, random._urandom)', 'process fork re-keys the simulated source']},
+        'assumptions': [
+            'a generation call that draws no bytes from the entropy source during the call cannot be fresh',
+            'agreement with the BIP38 specification is checked by round trip and address/compression checks, not by an independent BIP38 implementation',
+        ],
+    },
 }
